@@ -40,7 +40,7 @@ type ListCase struct {
 }
 
 const listRule = "case = 2-3 lists (zero value or New()) x <=60 ops PushFront/PushBack/InsertBefore/InsertAfter/Remove/MoveToFront/" +
-	"MoveToBack/MoveBefore/MoveAfter/PushBackList/PushFrontList (other list or itself)/Init/Front/Back/Len executed in lock-step on " +
+	"MoveToBack/MoveBefore/MoveAfter/PushBackList/PushFrontList (other list or itself)/Init/Front/Back/Len, plus by-value copies of zero-value lists that were only read so far, executed in lock-step on " +
 	"lists.List[any] and container/list through parallel handle tables (handle 0 = foreign unattached &Element{}); handles are picked from the " +
 	"whole table (own list, other list, removed, unattached) or, by selector, among the receiver's elements; after EVERY op: return values, " +
 	"Len, capped forward and backward traversals of every list mapped to handle indices, and Next/Prev/Value of every handle must agree; a panic " +
@@ -536,6 +536,17 @@ func RunList(c ListCase) pbt.Outcome {
 				labels.add("init:empty")
 			}
 			s.virgin[l] = false
+		case "copyzero":
+			// a zero-value list that has only been READ so far (Len/Front/Back, or used as the source of a
+			// PushBackList/PushFrontList) is still the zero value and may be copied by value; the copy must be
+			// an independent, pristine list
+			if !s.virgin[l] {
+				continue
+			}
+			nt, ns := *s.tl[l], *s.sl[l]
+			s.tl[l], s.sl[l] = &nt, &ns
+			labels.add("zero-list-copied-by-value")
+			continue
 		case "front":
 			desc = fmt.Sprintf("list%d.Front()", l)
 			tRun, sRun = func() { tE = tl.Front() }, func() { sE = sl.Front() }
@@ -647,7 +658,7 @@ var listKinds = func() []string {
 		k string
 		n int
 	}{{"pushf", 9}, {"pushb", 9}, {"insb", 7}, {"insa", 7}, {"rem", 10}, {"mtf", 6}, {"mtb", 6}, {"mvb", 9}, {"mva", 9},
-		{"pbl", 5}, {"pfl", 5}, {"init", 2}, {"front", 2}, {"back", 2}, {"len", 2}}
+		{"pbl", 5}, {"pfl", 5}, {"init", 2}, {"front", 2}, {"back", 2}, {"len", 2}, {"copyzero", 2}}
 	var r []string
 	for _, x := range w {
 		for i := 0; i < x.n; i++ {
